@@ -444,6 +444,45 @@ def run(rep, facts, tier):
                 'rejected source is cut back to it (the halt of a failed program disappears from the history)' % (short(fn), sorted(set(late_))),
                 fn, f.j['span'], nontrivial=bool(late_))
     rep.floor('C02.R3 functions that take a mark of the log', n_mark, 1)
+    # rnext undoes entries down to the previous SetIp.  What was recorded outside a completed instruction - by the host between
+    # two steps, by an instruction that failed half way - has no SetIp behind it and would be undone together with the next
+    # thing recorded: every function that starts recording a new step (run, next, the halt of a failed program) first closes
+    # such an open group (a function that looks at the last entry of the log and appends a SetIp when it is not one)
+    closers = set()
+    for fn, ws in W.items():
+        f = fx.fns.get(fn)
+        if f is None or fn in reach:
+            continue
+        pushes = [w for w in ws if w['field'][0] == 'reverse_log' and w['how'].startswith('call:grow')]
+        looks = any((ev['callee'] or '').endswith('::last') for ev in awrite.field_events(fx, f, {'state::State': {'reverse_log'}}))
+        setip = any(st['k'] == 'assign' and st['rv']['k'] == 'agg' and st['rv'].get('adt') == 'state::ReverseStep' and st['rv'].get('variant') == 'SetIp'
+                    for bb in f.reachable_blocks() for st in f.blocks[bb]['stmts'])
+        if pushes and looks and setip:
+            closers.add(fn)
+    from .. import stepfx as _sfx
+    Vd = _inl0.View(fx)
+    starters = sorted(c for c in _sfx.callers_seen_through(fx, Vd, 'state::State::fetch_and_run')
+                      if c.split('::{closure')[0] in ('state::State::run', 'state::State::next'))
+    # the halt: a function outside run time that sets the ip to the end of the code through the logging setter
+    from .c10 import halt_sites as _halts
+    for fn in sorted(fx.fns):
+        if fn in reach or fn in starters or '{closure' in fn:
+            continue
+        if _halts(fx, W, fx.fns[fn], W.get(fn, [])):
+            starters.append(fn)
+    n_st = 0
+    for fn in starters:
+        f = fx.fns[fn]          # as written: the closer is a private helper, a view would splice it away
+        firsts = [bb for bb, t in f.calls() if callee_of(t) == 'state::State::fetch_and_run' or callee_of(t) in _FX[1] or
+                  (callee_of(t) in fx.fns and callee_of(t) in reach and any(is_machine(w) for w in W.get(callee_of(t), [])))]
+        cl = [bb for bb, t in f.calls() if callee_of(t) in closers]
+        n_st += 1
+        okg = bool(cl) and all(any(f.dominates(c, b_) for c in cl) for b_ in firsts)
+        rep.add('C02.R4', 'C02.R4:%s:closes-an-open-group-first' % fn, okg,
+                'an open group on the log is closed before anything new is recorded' if okg else
+                '%s records a new step without closing what was recorded since the last SetIp: `push_data(5); compile("1 +")`, two steps '
+                'forward and two back leave [] instead of [5]; a failed `+` and its retry are undone by one rnext' % short(fn), fn, f.j['span'])
+    rep.floor('C02.R4 functions that start recording a step', n_st, 3)
 
     # R3: arms
     for name in sorted(arms):
